@@ -148,6 +148,11 @@ func (f *File) isValidAlias(alias string) bool {
 }
 
 func (f *File) isDotImport(path string) bool {
+	// if the path has been registered previously, the registered name decides: a hint given after
+	// the path has been rendered does not change how it is referred to
+	if def := f.imports[path]; def.name != "" && def.name != "_" {
+		return def.name == "."
+	}
 	if id, ok := f.hints[path]; ok {
 		return id.name == "." && id.alias
 	}
